@@ -8,7 +8,9 @@ rendered `name: value CRLF` + blank line; (R3) template arguments are
 exactly when the request had no If-Range; (R5) part headers are appended once
 per element of an ascending iteration over the range slice and the stream uses
 one index for both lists; (R6) the announced length is exactly the sum of the
-pieces streamed (C01.R4-R6).  Does not decide: header values the entity supplies."""
+pieces streamed (C01.R4-R6), each part's bytes come from the entity's stream for
+that range through the length-checked stream, and the forwarding layers above the
+multipart stream hand each piece on unchanged.  Does not decide: header values the entity supplies."""
 from . import serve_model as SM
 from . import multipart as MP
 from .common import where
@@ -76,3 +78,9 @@ def run(ctx):
     MP.length_sum(ctx, "C06.R6.sum")
     MP.stream_accounting(ctx, "C06.R6.acct")
     MP.stream_frame(ctx, "C06.R6.frame")
+    # "exactly entity bytes a..=b" per part: the entity's stream for range h goes only into the length-checked stream with budget
+    # |range h|, and the layers above the multipart stream hand each piece on unchanged
+    from . import who
+    from . import bodyrules as BR
+    who.entity_bytes_flow(ctx, "C06.R6.flow")
+    BR.layers_transparent(ctx, "C06.R6.layers")
